@@ -80,6 +80,64 @@ def cmd_digest(prop, path):
     return 0
 
 
+def cmd_selftest(only, with_baseline, tier):
+    """Sensitivity: apply each /verif/mutants/*.patch to a throw-away copy of the repo (outside /repo
+    and /verif), run the quick check of its property against that copy, expect exit 1."""
+    import glob
+    import shutil
+    mdir = os.path.join(env.VERIF, "mutants")
+    patches = sorted(glob.glob(os.path.join(mdir, "*.patch")))
+    if only:
+        patches = [p for p in patches if any(o in os.path.basename(p) for o in only)]
+    results = {}
+    rc_all = 0
+    for p in patches:
+        name = os.path.basename(p)[:-6]
+        prop = name.split("-")[0]
+        scratch = env.make_scratch("osaca-verif-mut-")
+        try:
+            copy = os.path.join(scratch, "repo")
+            subprocess.run(["rsync", "-a", "--exclude", ".git", "--exclude", "*.pickle", "--exclude", "__pycache__",
+                            env.REPO + "/", copy + "/"], check=True)
+            ap = subprocess.run(["patch", "-p1", "-s", "-i", p], cwd=copy, capture_output=True, text=True)
+            if ap.returncode != 0:
+                results[name] = {"status": "patch-failed", "detail": ap.stdout[-300:] + ap.stderr[-300:]}
+                print("%-55s PATCH FAILED" % name, flush=True)
+                rc_all = 2
+                continue
+            envv = dict(os.environ, VERIF_REPO=copy, VERIF_OUT_DIR=os.path.join(scratch, "out"), VERIF_SHRINK_BUDGET="40")
+            t0 = _real_time()
+            base = None
+            if with_baseline:
+                b = subprocess.run([sys.executable, "-m", "pytest", "-q", "-p", "no:cacheprovider", "--timeout=900",
+                                    "--continue-on-collection-errors", "--junitxml=" + os.path.join(scratch, "j.xml")],
+                                   cwd=copy, capture_output=True, text=True, env=dict(os.environ, PYTHONPATH=copy))
+                bb = subprocess.run([sys.executable, os.path.join(env.VERIF, "tools_baseline.py"), os.path.join(scratch, "j.xml")],
+                                    capture_output=True, text=True)
+                base = bb.stdout.split("\n")[0]
+            c = subprocess.run([sys.executable, os.path.join(HERE, "run.py"), "check", prop, "--tier", tier],
+                               capture_output=True, text=True, env=envv, timeout=3000)
+            classes = sorted({l.split("class=")[1].split(":")[0] for l in c.stdout.split("\n") if l.startswith("violation class=")})
+            status = "caught" if c.returncode == 1 and "VIOLATION property=%s" % prop in c.stdout else \
+                ("harness-error" if c.returncode == 2 else "MISSED")
+            results[name] = {"status": status, "rc": c.returncode, "classes": classes, "wall_s": round(_real_time() - t0, 1),
+                             "baseline": base}
+            print("%-55s %-8s rc=%d %s %.0fs %s" % (name, status, c.returncode, classes, _real_time() - t0, base or ""), flush=True)
+            if status != "caught":
+                rc_all = max(rc_all, 1)
+                print(c.stdout[-1500:])
+        finally:
+            env.remove_scratch(scratch)
+    out = os.path.join(os.environ.get("VERIF_OUT_DIR") or env.VERIF, "mutants", "RESULTS.json")
+    os.makedirs(os.path.dirname(out), exist_ok=True)
+    prev = {}
+    if os.path.exists(out) and only:
+        prev = json.load(open(out))
+    prev.update(results)
+    json.dump(prev, open(out, "w"), indent=1, sort_keys=True)
+    return rc_all
+
+
 def main():
     ap = argparse.ArgumentParser()
     sub = ap.add_subparsers(dest="cmd")
@@ -91,7 +149,13 @@ def main():
     d = sub.add_parser("digest")
     d.add_argument("prop")
     d.add_argument("path")
+    st = sub.add_parser("selftest")
+    st.add_argument("--only", action="append")
+    st.add_argument("--with-baseline", action="store_true")
+    st.add_argument("--tier", default="quick")
     a = ap.parse_args()
+    if a.cmd == "selftest":
+        sys.exit(cmd_selftest(a.only, a.with_baseline, a.tier))
     if a.cmd == "check":
         tier = os.environ.get("VERIF_TIER") or a.tier or "quick"
         if tier not in ("quick", "thorough"):
